@@ -47,7 +47,7 @@ def seeded():
         note = ""
         if det and det.get("exit") == 0:
             note = " — **not a live violation any more** (neutralised by a later repair, see meta.json)"
-        out.append(f"| {name} | {m.get('summary', '')[:240].replace('|', '/')} | `./check {m['property']}` (quick tier){note} |")
+        out.append(f"| {name} | {m.get('summary', '')[:240].replace('|', '/')} | `./check {m.get('check_property', m['property'])}` (quick tier){note} |")
     return "\n".join(out), len(out) - 2
 
 
